@@ -51,15 +51,15 @@ class DetectVarNames( ast.NodeVisitor ):
         low = node.slice.lower.n
       elif isinstance( lower, ast.Name ):
         x = lower.id
-        if   x in self.globals: low = (False, x)
-        elif x in self.closure: low = (True, x)
+        if   x in self.closure: low = (True, x)
+        elif x in self.globals: low = (False, x)
 
       if isinstance( upper, ast.Num ):
         up = node.slice.upper.n
       elif isinstance( upper, ast.Name ):
         x = upper.id
-        if   x in self.globals: up = (False, x)
-        elif x in self.closure: up = (True, x)
+        if   x in self.closure: up = (True, x)
+        elif x in self.globals: up = (False, x)
 
       if low is not None and up is not None:
         slices.append( slice(low, up) )
@@ -82,8 +82,8 @@ class DetectVarNames( ast.NodeVisitor ):
           n = v.n
         elif isinstance( v, ast.Name ):
           x = v.id
-          if   x in self.globals: n = (False, x)
-          elif x in self.closure: n = (True, x)
+          if   x in self.closure: n = (True, x)
+          elif x in self.globals: n = (False, x)
         elif isinstance( v, ast.Call ): # int(x)
           for x in v.args:
             self.visit(x)
@@ -153,15 +153,15 @@ class DetectVarNames( ast.NodeVisitor ):
         low = node.slice.lower.n
       elif isinstance( lower, ast.Name ):
         x = lower.id
-        if   x in self.globals: low = (False, x)
-        elif x in self.closure: low = (True, x)
+        if   x in self.closure: low = (True, x)
+        elif x in self.globals: low = (False, x)
 
       if isinstance( upper, ast.Num ):
         up = node.slice.upper.n
       elif isinstance( upper, ast.Name ):
         x = upper.id
-        if   x in self.globals: up = (False, x)
-        elif x in self.closure: up = (True, x)
+        if   x in self.closure: up = (True, x)
+        elif x in self.globals: up = (False, x)
 
       if low is not None and up is not None:
         slices.append( slice(low, up) )
@@ -184,8 +184,8 @@ class DetectVarNames( ast.NodeVisitor ):
           n = v.n
         elif isinstance( v, ast.Name ):
           x = v.id
-          if   x in self.globals: n = (False, x)
-          elif x in self.closure: n = (True, x)
+          if   x in self.closure: n = (True, x)
+          elif x in self.globals: n = (False, x)
         elif isinstance( v, ast.Call ): # int(x)
           for x in v.args:
             self.visit(x)
